@@ -20,7 +20,7 @@ for id in "$@"; do
 import json,sys,re
 p,res=sys.argv[1],sys.argv[2]
 m=json.load(open(p))
-caught=re.findall(r'\[(C\d+)\] CAUGHT: VIOLATION property=\S+ replay=\S+ rule=(\S+)',res)
+caught=[(k,r or 'process_killed') for k,r in re.findall(r'\[(C\d+)\] CAUGHT: VIOLATION property=\S+ replay=\S+(?: rule=(\S+))?',res)]
 missed=re.findall(r'\[(C\d+)\] missed',res)
 old=[x['check'] for x in m.get('caught_by',[])]
 m['caught_by']=[{"check":k,"rule":r} for k,r in caught]
